@@ -12,6 +12,8 @@ modules share (or reverse-complement) a start overhang, and the walk from oend(v
 text is cat(path) . frag(v) for the walked path; otherwise InvalidSequence / DuplicateModules / MissingModule(o)."""
 from __future__ import annotations
 
+import ast
+
 from pyvc import term as tm
 from pyvc.term import INT, BOOL, STR
 from pyvc.values import VT, VObj, VNone, NONE, VTuple, VList, VDict, VClass, new_oid
@@ -147,6 +149,7 @@ IDX = tm.arr_sort(STR, INT)
 
 
 class MapLoop0(LoopSpec):
+    kind, iterates = ast.For, "modules"
     """for mod in self.modules: setdefault ... -- ghost idx[key] = position of the module that filed the key"""
 
     def __init__(self, con):
@@ -199,6 +202,7 @@ class MapLoop0(LoopSpec):
 
 
 class MapLoop1(LoopSpec):
+    kind, iterates = ast.For, "modmap"
     """for overhang in modmap: no seen key has its reverse complement in the map"""
 
     def __init__(self, con):
@@ -324,6 +328,7 @@ def snoc_fact(P, e):
 
 
 class WalkLoop(LoopSpec):
+    kind = ast.While
     def __init__(self, con):
         self.con = con
 
@@ -710,6 +715,7 @@ def _ref_havoc(ex, st, con):
 
 
 class RefOuter(LoopSpec):
+    kind, iterates = ast.For, "features"
     """for feature in record.features: every entry of every earlier feature is done"""
 
     def __init__(self, con):
@@ -737,6 +743,7 @@ class RefOuter(LoopSpec):
 
 
 class RefInner(LoopSpec):
+    kind = ast.For
     """for i, ref in enumerate(citation list of feature F[kf]): the outer invariant, plus the entries before i are done"""
 
     def __init__(self, con):
@@ -1028,6 +1035,7 @@ class AnnotateAssembly(Contract):
 
 
 class ElementsLoop(LoopSpec):
+    kind, iterates = ast.For, "elements"
     """for elem in self.elements: self._(de)ref_citations(elem.record) -- pointwise effect on the cells"""
 
     def __init__(self, con, which):
